@@ -74,9 +74,11 @@ def gen_mm(rng, path):
     src.append(f'proof-rule-prop-1 $a |- ( \\imp {a} ( \\imp {b} {a} ) ) $.')
     src.append(f'proof-rule-prop-2 $a |- ( \\imp ( \\imp {a} ( \\imp {b} {c} ) ) ( \\imp ( \\imp {a} {b} ) ( \\imp {a} {c} ) ) ) $.')
     if rng.random() < 0.5:
-        x, y = rng.sample(names, 2) if rng.random() < 0.8 else [names[0]] * 2
+        x, y = rng.sample(names, 2) if rng.random() < 0.7 else [rng.choice(names)] * 2
         used = [v for v in order if v in (x, y)]
         steps = [used.index(x) + 1, used.index(y) + 1, len(used) + 1]
+        if x == y and rng.random() < 0.7:
+            steps = [1, 0, 3, 2]       # X, Z (mark it), reference to the marked step (m + k + 1 = 3), the rule
         goal = f'( \\imp {x} ( \\imp {y} {x} ) )'
         rule = 'proof-rule-prop-1'
     else:
@@ -85,7 +87,7 @@ def gen_mm(rng, path):
         steps = [used.index(x) + 1, used.index(y) + 1, used.index(z) + 1, len(used) + 1]
         goal = f'( \\imp ( \\imp {x} ( \\imp {y} {z} ) ) ( \\imp ( \\imp {x} {y} ) ( \\imp {x} {z} ) ) )'
         rule = 'proof-rule-prop-2'
-    src.append(f'goal $p |- {goal} $= ( {rule} ) {"".join(enc(s) for s in steps)} $.')
+    src.append(f'goal $p |- {goal} $= ( {rule} ) {"".join("Z" if s == 0 else enc(s) for s in steps)} $.')
     with open(path, 'w') as f:
         f.write('\n'.join(src) + '\n')
     return len(used)
@@ -126,7 +128,7 @@ def run(tier, seed):
         # which sites are new: compare with the committed matching table by text
         tab = open(os.path.join(C.COQ, 'Det', 'Sites.v')).read()
         for s in sites:
-            if s['cls'] in ('unordered', 'tainted', 'unknown') and f's_expr := "{s["expr"]}"'.replace("'", "'") not in tab:
+            if s['cls'] in ('unordered', 'tainted', 'unknown') and ('s_expr := ' + setsites.coq_string(s['expr'])) not in tab:
                 unmatched.append(s)
         unmatched += [dict(n, kind='nondet-call', cls='nondet') for n in nondet]
 
@@ -193,6 +195,63 @@ def run(tier, seed):
                                                          'suggested': [d.get('suggested'), ds[ji].get('suggested')]}))
         R.sample({'finalize_jobs': len(jobs), 'model_lines': len(lines)})
 
+    # ---- 2b. tie 1b: models of the converter sites (Det/ConverterModel.v) vs the real code -----------------------------
+    if ok:
+        def es(x):
+            return '.'.join(str(ord(ch)) for ch in x) or '-'
+
+        def el(l):
+            return ';'.join(es(x) for x in l) if l else '_'
+
+        def dl(x):
+            return [] if x == '_' else ['' if y == '-' else ''.join(chr(int(z)) for z in y.split('.')) for y in x.split(';')]
+
+        bench0 = os.path.join(C.REPO, 'generation', 'mm-benchmarks')
+        mfiles = ['disjointness-alt-lemma.mm', 'transfer-goal.mm', 'perceptron-goal.mm', 'impreflex.mm'] + \
+                 ([] if quick else ['svm5-goal.mm', 'transfer-simple-compressed-goal.mm', 'transfer-batch-1k-goal.mm'])
+        rs = C.rng_for(seed, CID + ':sorted')
+        alpha = 'abcxyzABZ019_-.\\ph\u00e9\u0101\u4e2d\U0001d7ff'
+        lists = [[''.join(rs.choice(alpha) for _ in range(rs.randint(0, 4))) for _ in range(rs.randint(0, 7))]
+                 for _ in range(150 if quick else 3000)]
+        cjobs = [{'t': 'metavars', 'path': os.path.join(bench0, f)} for f in mfiles] + [{'t': 'sorted', 'lists': lists}]
+        cseeds = seeds[:4]
+        with ThreadPoolExecutor(max_workers=len(cseeds)) as ex:
+            cres = list(ex.map(lambda hs: run_runner(cjobs, hs, os.path.join(scratch, f'cv{hs}')), cseeds))
+        lines, meta = [], []
+        for hs, res in zip(cseeds, cres):
+            for fj, r in zip(mfiles, res):
+                if 'err' in r:
+                    mismatches.append(('metavars-runner', fj, r))
+                    continue
+                for name, d in r['names'].items():
+                    lines.append(f"M {el(r['floating'])} {el(d['metavars'])}")
+                    meta.append(('M', fj, name, hs, d))
+            if hs == cseeds[0] and 'sorted' in res[-1]:
+                for l, want in zip(lists, res[-1]['sorted']):
+                    lines.append(f'Q {el(sorted(set(l), key=lambda x: (len(x), x[::-1])))}')     # any listing of the set
+                    meta.append(('Q', None, None, hs, want))
+        mo2 = C.run_lines_parallel(exe, lines)
+        varied = 0
+        seen_mv = {}
+        for o, (kd, fj, name, hs, d) in zip(mo2, meta):
+            if kd == 'M':
+                R.case(('metavars', fj, name, hs), len(d['metavars']) > 1, 'converter-site:metavars_in_order')
+                if dl(o) != d['in_order'] or d['len'] != len(d['metavars']) or d['as_set'] != sorted(set(d['metavars'])):
+                    mismatches.append(('metavars_in_order', fj, name, hs, o, d))
+                k0 = seen_mv.setdefault((fj, name), d)
+                if k0['metavars'] != d['metavars']:
+                    varied += 1                      # the tuple itself moves with the hash seed ...
+                if k0['in_order'] != d['in_order'] or k0['as_set'] != d['as_set']:
+                    findings.append(('nondeterministic:get_metavars_in_order', f'{fj}:{name} differs between hash seeds',
+                                     {'file': fj, 'name': name, 'a': k0, 'b': d, 'hashseed': hs}))   # ... its consumers must not
+            else:
+                R.case(('sorted', tuple(d)), len(d) > 1, 'converter-site:sorted(set)')
+                if dl(o) != d:
+                    mismatches.append(('sort_str', o, d))
+        R.hist['metavars-tuple-order-varied-with-seed'] = varied
+        R.sample({'metavars_cases': len([1 for m in meta if m[0] == 'M']), 'sorted_cases': len(lists),
+                  'tuples_whose_order_moved_with_the_seed': varied})
+
     # ---- 3. tie 2: process-level determinism (correspondence only) -----------------------------------------------------
     mmdir = os.path.join(scratch, 'mm')
     os.makedirs(mmdir, exist_ok=True)
@@ -219,6 +278,13 @@ def run(tier, seed):
                 'proof-rule-prop-1 $a |- ( \\imp ph0 ( \\imp ph1 ph0 ) ) $.\n'
                 'goal $p |- ( \\imp ph1 ( \\imp ph0 ph1 ) ) $= ( proof-rule-prop-1 ) BAC $.\n')
     items.append({'t': 'mm', 'path': wit, 'target': 'goal', 'mandatory': 2})
+    # a proof that marks a step with Z and refers back to it (number m + k + 1), two variables declared out of order
+    zw = os.path.join(mmdir, 'z_backreference.mm')
+    with open(zw, 'w') as f:
+        f.write('$c #Pattern |- \\imp ( ) $.\n$v ph1 ph0 $.\nptn1-pattern $f #Pattern ph1 $.\nph0-is-pattern $f #Pattern ph0 $.\n'
+                'proof-rule-prop-1 $a |- ( \\imp ph0 ( \\imp ph1 ph0 ) ) $.\n'
+                'goal $p |- ( \\imp ph0 ( \\imp ph0 ph0 ) ) $= ( proof-rule-prop-1 ) AZCB $.\n')
+    items.append({'t': 'mm', 'path': zw, 'target': 'goal', 'mandatory': 1})
 
     def key(it):
         return json.dumps({k: v for k, v in it.items() if k != 'mandatory'}, sort_keys=True)
